@@ -329,10 +329,19 @@ class VLoop(object):
     t._entry = entry
     heapq.heappush(self._timers, entry)
 
+  SWITCH_INTERVAL = 0.005
+
   def _run_callbacks(self):
     cbs = self._callbacks
     n = 0
+    self._interrupted = False
+    start = self.clock.now
     while cbs:
+      if n and self.clock.now - start >= self.SWITCH_INTERVAL:
+        # as gevent does: callbacks that keep the CPU (the clock moved while they ran) are cut off
+        # after the switch interval so that due timers and I/O get their turn
+        self._interrupted = True
+        break
       cb = cbs.popleft()
       callback, args = cb.callback, cb.args
       cb.callback = None
@@ -373,7 +382,7 @@ class VLoop(object):
 
   def run(self, nowait=False, once=False):
     while True:
-      if self._run_callbacks():
+      if self._run_callbacks() and not self._interrupted:
         continue
       t = self._pop_due_timer()
       if t is not None:
